@@ -308,6 +308,15 @@ def _real_routing(a: dict):
                     problems.append(f"session {'AB'[idx]}: its transaction was ended behind its back (a row written after {stmt} survived ROLLBACK)")
             except Exception as e:  # noqa: BLE001
                 problems.append(f"transaction probe raised {type(e).__name__}: {e}")
+    if stmt == "create_comment" and [a["a_tx"], a["b_tx"]][who]:
+        # the transaction was rolled back by the probe above: the table is gone, and so must be everything recorded about it
+        try:
+            left = boot.execute("select ext_table_name, comment from db1.information_schema._fs_tables_ext where ext_table_name = 'TC'").fetchall()
+            left += boot.execute("select ext_table_name, ext_column_name from db1.information_schema._fs_columns_ext where ext_table_name = 'TC'").fetchall()
+            if left:
+                problems.append(f"metadata of a table created in a rolled-back transaction survived the ROLLBACK: {left}")
+        except Exception as e:  # noqa: BLE001
+            problems.append(f"metadata probe raised {type(e).__name__}: {e}")
     if not problems and stmt in ("commit", "rollback", "conn.commit", "conn.rollback") and not [a["a_tx"], a["b_tx"]][who]:
         return None, "COMMIT/ROLLBACK without an open transaction: which of the two reached DuckDB is not observable on the real stack"
     return bool(problems), "; ".join(problems) or "real stack: routing/isolation as expected"
